@@ -47,7 +47,10 @@ def specs(ctx):
     return [(W, H, 1, 3) for W in range(1, 5) for H in range(1, 5)] \
         + [(W, H, 4, 4) for W in range(1, 4) for H in range(1, 4)] \
         + [(5, 3, 1, 3), (3, 5, 1, 3), (4, 2, 4, 4), (2, 4, 4, 4),
-           (5, 5, 1, 2), (6, 2, 1, 3), (4, 3, 4, 4), (2, 2, 5, 5)]
+           (5, 5, 1, 2), (6, 2, 1, 3), (4, 3, 4, 4), (2, 2, 5, 5),
+           (3, 4, 4, 4), (4, 4, 4, 4), (5, 4, 1, 3), (4, 5, 1, 3),
+           (5, 5, 3, 3), (6, 3, 1, 3), (3, 2, 5, 5), (2, 3, 5, 5),
+           (6, 6, 1, 2), (7, 2, 1, 3)]
 
 
 def mid_instances(W, H, kmax):
